@@ -93,8 +93,9 @@ func genSpec(r *rand.Rand, k config.GroupVersionKind, ns string) config.Spec {
 			} else {
 				for i, n := 0, 1+r.Intn(3); i < n; i++ {
 					se.Endpoints = append(se.Endpoints, &networking.WorkloadEntry{
-						Address: fmt.Sprintf("10.%d.%d.%d", 10+r.Intn(3), r.Intn(3), 1+r.Intn(6)),
-						Labels:  map[string]string{"version": pick(r, []string{"v1", "v2"})},
+						Address:  fmt.Sprintf("10.%d.%d.%d", 10+r.Intn(3), r.Intn(3), 1+r.Intn(6)),
+						Labels:   map[string]string{"version": pick(r, []string{"v1", "v2"})},
+						Locality: pick(r, []string{"", "r1/z1", "r2/z1", "r3/z2"}),
 					})
 				}
 			}
@@ -153,10 +154,32 @@ func genSpec(r *rand.Rand, k config.GroupVersionKind, ns string) config.Spec {
 		}
 		for _, v := range []string{"v1", "v2"} {
 			if r.Intn(2) == 0 {
-				dr.Subsets = append(dr.Subsets, &networking.Subset{Name: v, Labels: map[string]string{"version": v}})
+				// the same subset name may select different endpoints after an update
+				lv := v
+				if r.Intn(3) == 0 {
+					lv = pick(r, []string{"v1", "v2"})
+				}
+				dr.Subsets = append(dr.Subsets, &networking.Subset{Name: v, Labels: map[string]string{"version": lv}})
 			}
 		}
-		switch r.Intn(5) {
+		switch r.Intn(8) {
+		case 5:
+			dr.TrafficPolicy = &networking.TrafficPolicy{LoadBalancer: &networking.LoadBalancerSettings{LbPolicy: &networking.LoadBalancerSettings_ConsistentHash{
+				ConsistentHash: &networking.LoadBalancerSettings_ConsistentHashLB{HashKey: &networking.LoadBalancerSettings_ConsistentHashLB_HttpHeaderName{HttpHeaderName: pick(r, []string{"x-user", "x-session"})}}}}}
+		case 6:
+			dr.TrafficPolicy = &networking.TrafficPolicy{
+				OutlierDetection: &networking.OutlierDetection{ConsecutiveErrors: 3, BaseEjectionTime: durationpb.New(30 * time.Second)},
+				LoadBalancer: &networking.LoadBalancerSettings{LocalityLbSetting: &networking.LocalityLoadBalancerSetting{
+					Enabled:  wrappers.Bool(true),
+					Failover: []*networking.LocalityLoadBalancerSetting_Failover{{From: "r1", To: pick(r, []string{"r2", "r3"})}},
+				}},
+			}
+		case 7:
+			dr.TrafficPolicy = &networking.TrafficPolicy{LoadBalancer: &networking.LoadBalancerSettings{LocalityLbSetting: &networking.LocalityLoadBalancerSetting{
+				Enabled:    wrappers.Bool(true),
+				Distribute: []*networking.LocalityLoadBalancerSetting_Distribute{{From: "r1/*", To: map[string]uint32{"r1/*": uint32(50 + 10*r.Intn(5)), "r2/*": 0}}},
+			}}}
+			dr.TrafficPolicy.LoadBalancer.LocalityLbSetting.Distribute[0].To["r2/*"] = 100 - dr.TrafficPolicy.LoadBalancer.LocalityLbSetting.Distribute[0].To["r1/*"]
 		case 0:
 			dr.TrafficPolicy = &networking.TrafficPolicy{Tls: &networking.ClientTLSSettings{Mode: pick(r, []networking.ClientTLSSettings_TLSmode{
 				networking.ClientTLSSettings_DISABLE, networking.ClientTLSSettings_ISTIO_MUTUAL, networking.ClientTLSSettings_SIMPLE})}}
